@@ -162,6 +162,67 @@ func checkC07(c *mc.Ctx) {
 			Bound: fmt.Sprintf("all order-preserving merges of PES A (2 duplicated packets), PES B (1 duplicated packet) and the SDT PID, lengths %v", dlens)})
 	}
 
+	// a PAT sent as two sections (two units), each announcing one PMT PID: in every merge, every PMT
+	// unit that follows the PAT section announcing its PID must be delivered, whatever other PAT
+	// sections arrive in between
+	{
+		ccs := []uint8{0, 3, 6, 9}
+		patA, patB := modelPAT(1, 0x1000), modelPAT(2, 0x1001)
+		mkPMT := func(pid uint16, prog uint16, n int) SUnit {
+			d := modelPMT(prog, 0x100, n)
+			return PSIUnit(pid, 0, [][]byte{SecPMT(d, ref.SecHdr{CNI: true})}, []ExpData{{Kind: "PMT", Table: d}})
+		}
+		p1a, p1b, p2 := mkPMT(0x1000, 1, 1), mkPMT(0x1000, 1, 2), mkPMT(0x1001, 2, 3)
+		a := PESUnit(0x100, 0xe0, pesPayload(1, 250, c.Seed), 1, false)
+		lists := [][]*ref.Pkt{
+			append(Packetize(PSIUnit(0, 0, [][]byte{SecPAT(patA, ref.SecHdr{CNI: true, LSN: 1})}, nil), nil, &ccs[0], true), Packetize(PSIUnit(0, 0, [][]byte{SecPAT(patB, ref.SecHdr{CNI: true, SN: 1, LSN: 1})}, nil), nil, &ccs[0], true)...),
+			append(Packetize(p1a, nil, &ccs[1], true), Packetize(p1b, nil, &ccs[1], true)...),
+			Packetize(p2, nil, &ccs[2], true),
+			Packetize(a, nil, &ccs[3], false),
+		}
+		units := map[uint16][]ExpData{0x1000: {p1a.Exp[0], p1b.Exp[0]}, 0x1001: {p2.Exp[0]}}
+		announce := map[uint16]int{0x1000: 0, 0x1001: 1} // index within the PAT list of the announcing packet
+		lens := []int{len(lists[0]), len(lists[1]), len(lists[2]), len(lists[3])}
+		orders := mc.AllMerges(lens)
+		pd := mc.ParFor(int64(len(orders)), c.OverBudget, func(i int64) {
+			o := orders[i]
+			st := BuildStream("pat-sections", lists, o, nil)
+			out := DemuxBytes(st.Bytes)
+			got := byPID(out.Data)
+			for li, pid := range map[int]uint16{1: 0x1000, 2: 0x1001} {
+				// which units of this PID come after the announcing PAT packet
+				seenPAT, k := 0, 0
+				var must []ExpData
+				for _, s := range o {
+					if s == 0 {
+						seenPAT++
+					}
+					if s == li {
+						if seenPAT > announce[pid] {
+							must = append(must, units[pid][k])
+						}
+						k++
+					}
+				}
+				j := 0
+				for _, d := range got[pid] {
+					if j < len(must) {
+						if ok, _ := must[j].Matches(d); ok {
+							j++
+						}
+					}
+				}
+				if j != len(must) || out.Panic != nil {
+					c.Rep.Report("pmt-lost-after-its-pat-section", map[string]any{"kind": "stream", "what": o, "bytes": mc.Hex(st.Bytes), "message": fmt.Sprintf("PID %#x: %d PMT units follow the PAT section announcing the PID, %d of them were delivered", pid, len(must), j)})
+					return
+				}
+			}
+			c.Ev.Class("pat-in-two-sections", 1)
+		})
+		c.Ev.DistinctAdd(pd)
+		c.Ev.AddScenario(mc.Scenario{Name: "pat-sections-merges", SpaceSize: int64(len(orders)), Executed: pd, Exhaustive: pd == int64(len(orders)), Bound: fmt.Sprintf("all merges of a 2-section PAT (2 units), 2 PMT PIDs and a PES PID, lengths %v", lens)})
+	}
+
 	// insertions: null, adaptation-only of a used PID, TEI packet of a used PID, at every position of
 	// several base schedules
 	bases := [][]int{roundRobin(l.lists)}
